@@ -157,6 +157,9 @@ Proofs/SupervisorProofs.vos Proofs/SupervisorProofs.vok Proofs/SupervisorProofs.
 Proofs/WorkersProofs.vo Proofs/WorkersProofs.glob Proofs/WorkersProofs.v.beautified Proofs/WorkersProofs.required_vo: Proofs/WorkersProofs.v Base/Bytes.vo Base/Dec.vo Model/RespCodec.vo Model/Filter.vo Model/CmdFilter.vo Model/Slot.vo Model/Incr.vo Model/Workers.vo Gen/Crc16.vo Gen/CmdTable.vo Proofs/CmdFilterProofs.vo
 Proofs/WorkersProofs.vio: Proofs/WorkersProofs.v Base/Bytes.vio Base/Dec.vio Model/RespCodec.vio Model/Filter.vio Model/CmdFilter.vio Model/Slot.vio Model/Incr.vio Model/Workers.vio Gen/Crc16.vio Gen/CmdTable.vio Proofs/CmdFilterProofs.vio
 Proofs/WorkersProofs.vos Proofs/WorkersProofs.vok Proofs/WorkersProofs.required_vos: Proofs/WorkersProofs.v Base/Bytes.vos Base/Dec.vos Model/RespCodec.vos Model/Filter.vos Model/CmdFilter.vos Model/Slot.vos Model/Incr.vos Model/Workers.vos Gen/Crc16.vos Gen/CmdTable.vos Proofs/CmdFilterProofs.vos
+Proofs/WriterProofs.vo Proofs/WriterProofs.glob Proofs/WriterProofs.v.beautified Proofs/WriterProofs.required_vo: Proofs/WriterProofs.v Base/Bytes.vo Base/Endian.vo Base/Dec.vo Model/RespCodec.vo Spec/Crc64.vo Model/Digest.vo Model/Rdb.vo Model/Cupcake.vo Spec/RdbFormat.vo Spec/RdbRecords.vo Proofs/DigestProofs.vo Proofs/RdbProofs.vo Gen/Crc64.vo Proofs/CupcakeProofs.vo
+Proofs/WriterProofs.vio: Proofs/WriterProofs.v Base/Bytes.vio Base/Endian.vio Base/Dec.vio Model/RespCodec.vio Spec/Crc64.vio Model/Digest.vio Model/Rdb.vio Model/Cupcake.vio Spec/RdbFormat.vio Spec/RdbRecords.vio Proofs/DigestProofs.vio Proofs/RdbProofs.vio Gen/Crc64.vio Proofs/CupcakeProofs.vio
+Proofs/WriterProofs.vos Proofs/WriterProofs.vok Proofs/WriterProofs.required_vos: Proofs/WriterProofs.v Base/Bytes.vos Base/Endian.vos Base/Dec.vos Model/RespCodec.vos Spec/Crc64.vos Model/Digest.vos Model/Rdb.vos Model/Cupcake.vos Spec/RdbFormat.vos Spec/RdbRecords.vos Proofs/DigestProofs.vos Proofs/RdbProofs.vos Gen/Crc64.vos Proofs/CupcakeProofs.vos
 Props/C01.vo Props/C01.glob Props/C01.v.beautified Props/C01.required_vo: Props/C01.v Base/Bytes.vo Base/Endian.vo Spec/Crc64.vo Gen/Crc64.vo Gen/Rdb.vo Model/Digest.vo Model/Rdb.vo Spec/RdbFormat.vo Spec/RdbRecords.vo Proofs/RdbProofs.vo Proofs/DigestProofs.vo
 Props/C01.vio: Props/C01.v Base/Bytes.vio Base/Endian.vio Spec/Crc64.vio Gen/Crc64.vio Gen/Rdb.vio Model/Digest.vio Model/Rdb.vio Spec/RdbFormat.vio Spec/RdbRecords.vio Proofs/RdbProofs.vio Proofs/DigestProofs.vio
 Props/C01.vos Props/C01.vok Props/C01.required_vos: Props/C01.v Base/Bytes.vos Base/Endian.vos Spec/Crc64.vos Gen/Crc64.vos Gen/Rdb.vos Model/Digest.vos Model/Rdb.vos Spec/RdbFormat.vos Spec/RdbRecords.vos Proofs/RdbProofs.vos Proofs/DigestProofs.vos
@@ -190,9 +193,9 @@ Props/C10.vos Props/C10.vok Props/C10.required_vos: Props/C10.v Base/Bytes.vos B
 Props/C11.vo Props/C11.glob Props/C11.v.beautified Props/C11.required_vo: Props/C11.v Base/Bytes.vo Base/Endian.vo Spec/Crc64.vo Gen/Crc64.vo Model/Digest.vo Proofs/Crc64Proofs.vo Proofs/DigestProofs.vo
 Props/C11.vio: Props/C11.v Base/Bytes.vio Base/Endian.vio Spec/Crc64.vio Gen/Crc64.vio Model/Digest.vio Proofs/Crc64Proofs.vio Proofs/DigestProofs.vio
 Props/C11.vos Props/C11.vok Props/C11.required_vos: Props/C11.v Base/Bytes.vos Base/Endian.vos Spec/Crc64.vos Gen/Crc64.vos Model/Digest.vos Proofs/Crc64Proofs.vos Proofs/DigestProofs.vos
-Props/C12.vo Props/C12.glob Props/C12.v.beautified Props/C12.required_vo: Props/C12.v Base/Bytes.vo Base/Endian.vo Base/Dec.vo Model/Rdb.vo Spec/RdbFormat.vo Spec/Compact.vo Model/Cupcake.vo Proofs/RdbProofs.vo Proofs/CupcakeProofs.vo
-Props/C12.vio: Props/C12.v Base/Bytes.vio Base/Endian.vio Base/Dec.vio Model/Rdb.vio Spec/RdbFormat.vio Spec/Compact.vio Model/Cupcake.vio Proofs/RdbProofs.vio Proofs/CupcakeProofs.vio
-Props/C12.vos Props/C12.vok Props/C12.required_vos: Props/C12.v Base/Bytes.vos Base/Endian.vos Base/Dec.vos Model/Rdb.vos Spec/RdbFormat.vos Spec/Compact.vos Model/Cupcake.vos Proofs/RdbProofs.vos Proofs/CupcakeProofs.vos
+Props/C12.vo Props/C12.glob Props/C12.v.beautified Props/C12.required_vo: Props/C12.v Base/Bytes.vo Base/Endian.vo Base/Dec.vo Model/Rdb.vo Spec/RdbFormat.vo Spec/Compact.vo Model/Cupcake.vo Proofs/RdbProofs.vo Proofs/CupcakeProofs.vo Proofs/WriterProofs.vo
+Props/C12.vio: Props/C12.v Base/Bytes.vio Base/Endian.vio Base/Dec.vio Model/Rdb.vio Spec/RdbFormat.vio Spec/Compact.vio Model/Cupcake.vio Proofs/RdbProofs.vio Proofs/CupcakeProofs.vio Proofs/WriterProofs.vio
+Props/C12.vos Props/C12.vok Props/C12.required_vos: Props/C12.v Base/Bytes.vos Base/Endian.vos Base/Dec.vos Model/Rdb.vos Spec/RdbFormat.vos Spec/Compact.vos Model/Cupcake.vos Proofs/RdbProofs.vos Proofs/CupcakeProofs.vos Proofs/WriterProofs.vos
 Props/C13.vo Props/C13.glob Props/C13.v.beautified Props/C13.required_vo: Props/C13.v Base/Bytes.vo Model/Filter.vo Model/CmdFilter.vo Gen/CmdTable.vo Proofs/CmdFilterProofs.vo
 Props/C13.vio: Props/C13.v Base/Bytes.vio Model/Filter.vio Model/CmdFilter.vio Gen/CmdTable.vio Proofs/CmdFilterProofs.vio
 Props/C13.vos Props/C13.vok Props/C13.required_vos: Props/C13.v Base/Bytes.vos Model/Filter.vos Model/CmdFilter.vos Gen/CmdTable.vos Proofs/CmdFilterProofs.vos
